@@ -11,11 +11,17 @@
     xgi/algorithms/clustering.py     `clustering_coefficient` (0.5·diag(A³)/(k(k−1)/2), nan → 0)
     xgi/convert/graph.py             `to_graph`
     xgi/convert/line_graph.py        `to_line_graph(s, weights)`
-    xgi/convert/bipartite_graph.py   `to_bipartite_graph(index=True)` (undirected)
+    xgi/convert/bipartite_graph.py   `to_bipartite_graph(H, index)` for a Hypergraph and, over `Xgi.DiNet`, the
+                                     directed branch for a DiHypergraph (node → edge for tail members,
+                                     edge → node for head members)
     xgi/convert/encapsulation_dag.py `to_encapsulation_dag(subset_types)`; the "empirical" filter is the
-                                     order-independent one of proposed_fixes/C14-empirical-filter-order.diff
+                                     order-independent one (fix 8dab08f in /repo = proposed_fixes/C14-empirical-filter-order.diff)
   Python sets are duplicate-free lists; numpy/scipy/networkx appear as the pure functions they are
   documented to be (A = [I·Iᵀ ≥ 1] off the diagonal, graphs = vertex list + link list).  No Mathlib.
+
+  Empty hyperedges are ordinary inputs (`Net.WF` allows an empty member list): they are vertices of the line
+  graph, of the bipartite graph and of the encapsulation DAG, never linked to anything for s ≥ 1, and invisible
+  to neighbours / components / distances / projection (`dropEmpty`, theorems in Props/C14.lean).
 -/
 import XgiModel.Net
 
@@ -148,6 +154,21 @@ def sssp (h : Net) (src : PyId) : SPOut :=
 /-- the dict the function returns, keys in node order -/
 def ssspTable (h : Net) (d : PyId → Option Nat) : List (PyId × Option Nat) := h.nodes.map (fun n => (n, d n))
 
+/-- one `(source, dict)` item of the generator `shortest_path_length(H)` -/
+def splRow (h : Net) (s : PyId) : Option (PyId × List (PyId × Option Nat)) :=
+  match sssp h s with
+  | .ok d => some (s, ssspTable h d)
+  | _ => none
+
+/-- `list(shortest_path_length(H))`: `for n in H.nodes: yield (n, single_source_shortest_path_length(H, n))`;
+    `none` = some source did not finish (never happens on a well-formed network: theorem `spl_spec`) -/
+def spl (h : Net) : Option (List (PyId × List (PyId × Option Nat))) :=
+  let rows := h.nodes.map (splRow h)
+  if rows.all Option.isSome then some (rows.filterMap id) else none
+
+/-- the network without its empty hyperedges -/
+def dropEmpty (h : Net) : Net := { h with edges := h.edges.filter (fun p => !p.2.isEmpty) }
+
 /-! ### clustering coefficient -/
 
 /-- entry of the unweighted adjacency matrix `[(I·Iᵀ) ≥ 1]` with zero diagonal -/
@@ -208,6 +229,16 @@ def lineLinks (h : Net) (s : Nat) (w : LW) : List (PyId × PyId × Option Rat) :
   (pairs h.edges).filterMap (fun p =>
     if (inter p.1.2 p.2.2).length ≥ s then some (p.1.1, p.2.1, lineWeight w p.1.2 p.2.2) else none)
 
+/-- vertices of `to_line_graph`: every hyperedge (empty ones included) with `original_hyperedge` = its members -/
+def lineNodes (h : Net) : List Entry := h.edges
+
+/-- `to_line_graph(H, s, "normalized")` raises `ZeroDivisionError` iff some pair that gets linked contains an
+    empty hyperedge (`weight /= min(len, len)` with min = 0); `s` is any Python int.  Only possible for s ≤ 0
+    (theorem `line_graph_no_zero_division`). -/
+def lineZeroDiv (h : Net) (s : Int) (w : LW) : Bool :=
+  w == .normalized &&
+  (pairs h.edges).any (fun p => decide (s ≤ ((inter p.1.2 p.2.2).length : Int)) && (min p.1.2.length p.2.2.length == 0))
+
 /-- vertices of `to_bipartite_graph(H)`: (index, `bipartite` flag) -/
 def bipNodes (h : Net) : List (Nat × Nat) :=
   (List.range h.nodes.length).map (fun i => (i, 0)) ++
@@ -220,6 +251,27 @@ def bipEdges (h : Net) : List (Nat × Nat) :=
 /-- the index → node and index → edge dicts returned with `index=True` -/
 def bipNodeIndex (h : Net) : List (Nat × PyId) := h.nodes.zipIdx.map (fun p => (p.2, p.1))
 def bipEdgeIndex (h : Net) : List (Nat × PyId) := h.edges.zipIdx.map (fun p => (h.nodes.length + p.2, p.1.1))
+
+/-! `to_bipartite_graph(DH)` for a DiHypergraph: same vertices and index dicts, a `DiGraph` with
+    `node → edge` for every tail member and `edge → node` for every head member -/
+
+def dibipNodes (h : DiNet) : List (Nat × Nat) :=
+  (List.range h.nodes.length).map (fun i => (i, 0)) ++
+  (List.range h.edges.length).map (fun j => (h.nodes.length + j, 1))
+
+/-- directed links (source index, target index) in the order the code adds them -/
+def dibipEdges (h : DiNet) : List (Nat × Nat) :=
+  h.edges.zipIdx.flatMap (fun pj =>
+    pj.1.2.1.map (fun v => (h.nodes.idxOf v, h.nodes.length + pj.2)) ++
+    pj.1.2.2.map (fun v => (h.nodes.length + pj.2, h.nodes.idxOf v)))
+
+def dibipNodeIndex (h : DiNet) : List (Nat × PyId) := h.nodes.zipIdx.map (fun p => (p.2, p.1))
+def dibipEdgeIndex (h : DiNet) : List (Nat × PyId) := h.edges.zipIdx.map (fun p => (h.nodes.length + p.2, p.1.1))
+
+/-- well-formed directed network: IDs distinct, tails and heads duplicate-free lists of nodes -/
+def DiWF (h : DiNet) : Prop :=
+  h.nodes.Nodup ∧ (h.edges.map (·.1)).Nodup ∧
+  ∀ p ∈ h.edges, p.2.1.Nodup ∧ p.2.2.Nodup ∧ (∀ n ∈ p.2.1, n ∈ h.nodes) ∧ (∀ n ∈ p.2.2, n ∈ h.nodes)
 
 inductive SubT where
   | all | immediate | empirical
